@@ -1,8 +1,7 @@
-import re
 import itertools
 from enum import Enum
 
-from flamapy.core.models.ast import ASTOperation
+from flamapy.core.models.ast import ASTOperation, Node
 from flamapy.core.transformations import ModelToText
 from flamapy.metamodels.fm_metamodel.models import FeatureModel, Feature, Relation, Constraint
 
@@ -143,24 +142,32 @@ def get_cardinality_formula(relation: Relation) -> str:
 
 
 def get_constraint_formula(ctc: Constraint) -> str:
-    constraint_str = ctc.ast.pretty_str()
-    constraint_str = re.sub(rf"\b{ASTOperation.XOR.value}\b",
-                            PLWriter.LogicConnective.XOR.value, constraint_str)
-    constraint_str = re.sub(rf"\b{ASTOperation.NOT.value}\b",
-                            PLWriter.LogicConnective.NOT.value, constraint_str)
-    constraint_str = re.sub(rf"\b{ASTOperation.AND.value}\b",
-                            PLWriter.LogicConnective.AND.value, constraint_str)
-    constraint_str = re.sub(rf"\b{ASTOperation.OR.value}\b",
-                            PLWriter.LogicConnective.OR.value, constraint_str)
-    constraint_str = re.sub(rf"\b{ASTOperation.IMPLIES.value}\b",
-                            PLWriter.LogicConnective.IMPLIES.value, constraint_str)
-    constraint_str = re.sub(rf"\b{ASTOperation.EQUIVALENCE.value}\b",
-                            PLWriter.LogicConnective.EQUIVALENCE.value, constraint_str)
-    constraint_str = re.sub(rf"\b{ASTOperation.REQUIRES.value}\b",
-                            PLWriter.LogicConnective.IMPLIES.value, constraint_str)
-    constraint_str = re.sub(
-        rf"\b{ASTOperation.EXCLUDES.value}\b",
-        f'{PLWriter.LogicConnective.IMPLIES.value} {PLWriter.LogicConnective.NOT.value}',
-        constraint_str
-    )
-    return constraint_str
+    return get_node_formula(ctc.ast.root)
+
+
+def get_node_formula(node: Node) -> str:
+    """Serialize the AST directly, so that the names of the features are never mistaken
+    for operators (e.g., a feature called 'OR')."""
+    if node.is_term():
+        return str(node.data)
+    if node.data == ASTOperation.NOT:
+        return f'{PLWriter.LogicConnective.NOT.value} {get_operand_formula(node.left)}'
+    left = get_operand_formula(node.left)
+    right = get_operand_formula(node.right)
+    if node.data == ASTOperation.EXCLUDES:
+        return f'{left} {PLWriter.LogicConnective.IMPLIES.value} ' \
+               f'{PLWriter.LogicConnective.NOT.value} {right}'
+    return f'{left} {PL_OPERATORS[node.data].value} {right}'
+
+
+def get_operand_formula(node: Node) -> str:
+    result = get_node_formula(node)
+    return f'({result})' if node.is_binary_op() else result
+
+
+PL_OPERATORS = {ASTOperation.AND: PLWriter.LogicConnective.AND,
+                ASTOperation.OR: PLWriter.LogicConnective.OR,
+                ASTOperation.XOR: PLWriter.LogicConnective.XOR,
+                ASTOperation.IMPLIES: PLWriter.LogicConnective.IMPLIES,
+                ASTOperation.REQUIRES: PLWriter.LogicConnective.IMPLIES,
+                ASTOperation.EQUIVALENCE: PLWriter.LogicConnective.EQUIVALENCE}
